@@ -3,6 +3,8 @@
 mod common;
 mod m_adapt;
 mod m_chain;
+#[cfg(eyeball_verif)]
+mod m_conc;
 mod m_diff;
 mod m_obs;
 mod m_ovec;
@@ -17,6 +19,8 @@ fn main() {
         "adapt" => m_adapt::run_line,
         "ovec" => m_ovec::run_line,
         "chain" => m_chain::run_line,
+        #[cfg(eyeball_verif)]
+        "conc" => m_conc::run_line,
         "obs" => {
             m_obs::check_hashes();
             m_obs::run_line
